@@ -80,6 +80,14 @@ func runAUG(c *Ctx) (obls []Obl) {
 								popFn = af
 							}
 						}
+						// the list consumed through a cursor: cursor = cursor + 1
+						if bo, ok := st.Val.(*ssa.BinOp); ok && bo.Op == token.ADD {
+							if k, isC := bnConst(bo.Y); isC && k == 1 {
+								if ld, ok := bo.X.(*ssa.UnOp); ok && ld.Op == token.MUL && ld.X == st.Addr {
+									popFn = af
+								}
+							}
+						}
 					}
 				}
 			}
